@@ -1098,6 +1098,31 @@ def case_key(case):
                       sort_keys=True, default=str)
 
 
+def _degenerate(case):
+    """A label (or step name) that make_safe_path reduces to nothing but dots or to the empty string gives a directory
+    component "", "." or "..": the workspace of such an instance is another instance's or the step's own directory.
+    That is C10's known finding K1c; C11's observables (relative workspaces, script locations) are not defined there,
+    so such generated cases are left to C10 (found by thorough seed 4 once C08's generator drew label tokens other
+    than "%%": label "%%.%%" with token "+" stays "%%.%%" and sanitises to ".")."""
+    import string
+    valid = set("-_.() " + string.ascii_letters + string.digits)
+
+    def san(x):
+        return "".join(ch for ch in str(x) if ch in valid).replace(" ", "_")
+    tok = case.get("ltoken") or "%%"
+    comps = [st["name"] for st in case.get("steps", [])]
+    for p in case.get("params", []):
+        lab = p.get("label")
+        for i, v in enumerate(p.get("values", [])):
+            if isinstance(lab, list):
+                comps.append(lab[i] if i < len(lab) else "")
+            elif lab is None:
+                comps.append("%s.%s" % (p.get("key"), v))
+            else:
+                comps.append(str(lab).replace(tok, str(v)))
+    return any(set(san(c)) <= {"."} for c in comps)
+
+
 def generate(rng, tier):
     quick = tier != "thorough"
     n_tiny, n_valid, n_prefix, n_exotic, n_wide, n_ties, n_sched, n_env = \
@@ -1113,6 +1138,7 @@ def generate(rng, tier):
     gen += [gen_ties(rng) for _ in range(n_ties)]
     gen += [gen_sched(rng) for _ in range(n_sched)]
     gen += [gen_env(rng) for _ in range(n_env)]
+    gen = [c for c in gen if not _degenerate(c)]
     for c in gen:                      # the flags: --hashws / --usetmp / through the Conductor / real run
         r = rng.random()
         if r < 0.25 and not c.get("long_target"):
